@@ -48,7 +48,7 @@ const (
 
 // Pfx maps a small id to a prefix (distinct, none contains another).
 func Pfx(id int) *bnet.Prefix {
-	return bnet.NewPfx(bnet.IPv4FromOctets(10, byte(id), 0, 0), 16).Ptr()
+	return bnet.NewPfx(bnet.IPv4FromOctets(10, byte(id), 0, 0), 16).Dedup() // one object per prefix: RouteFilter.equal compares patterns by pointer
 }
 
 // PfxID is the inverse of Pfx.
